@@ -297,6 +297,10 @@ class Extract(Function):
         super().__init__("EXTRACT", date_part, alias=alias)
         self.field = field
 
+    def nodes_(self):
+        yield from super().nodes_()
+        yield from self.field.nodes_()
+
     @builder
     def replace_table(self, current_table, new_table) -> "Self":  # type:ignore[return]
         self.args = [param.replace_table(current_table, new_table) for param in self.args]
